@@ -1189,4 +1189,134 @@ theorem pull_ok_keeps_named {cfg : Cfg} {hash : Bytes → Digest} {name : Name} 
         have := usedRefs_mem n m _ hlook l.digest (all_digest_mem_layerRefs m l hl)
         rw [hd] at this; exact this
 
+/-! ## the honest path from a single-part resume state (for `retry_can_succeed_resume`) -/
+theorem resize_self (f : Bytes) : resize f f.length = f := by
+  simp [resize, zeros]
+
+/-- an honest chunk for a part that covers the whole blob and already has `done` bytes completes it -/
+theorem chunkStep_honest_resume (c file : Bytes) (done : Nat) (w : Bool) (hlt : done < c.length) :
+    chunkStep c honestReply ⟨file, ⟨0, c.length, done⟩, w⟩ =
+      (.done, ⟨writeAt file done (c.drop done), ⟨0, c.length, c.length⟩, true⟩) := by
+  have hlen : (c.drop done).length = c.length - done := by simp
+  have hne : (c.drop done).isEmpty = false := by
+    cases h : c.drop done with
+    | nil => rw [h] at hlen; simp at hlen; omega
+    | cons _ _ => rfl
+  have htake : (c.drop done).take (c.length - done) = c.drop done := by
+    rw [← hlen]; exact List.take_length
+  have hadd : done + (c.length - done) = c.length := by omega
+  simp only [chunkStep, honestReply, bodyOf, Nat.zero_add, htake, hlen, hne, if_true, Bool.not_false, Bool.or_true, hadd]
+  simp
+
+
+
+/-- what an interrupted or failed SINGLE-PART download of blob `c` leaves behind when the HEAD answer told the true
+    length: the data file has the blob's length and agrees with it on the `done` bytes the record says are complete -/
+def Resume1Ok (c : Bytes) (pa : Partial) : Prop :=
+  ∃ data done, pa = ⟨some data, [⟨0, c.length, done⟩]⟩ ∧ done ≤ c.length ∧ data.length = c.length ∧
+    data.take done = c.take done
+
+theorem globParts_single (p : Part) : globParts [p] = [(0, p)] := by
+  simp [globParts, indexFrom, globSort, globInsert]
+
+theorem downloadLayer_honest_resume1 (cfg : Cfg) (reg : Registry) (d : Digest) (c : Bytes) (net : Net) (pa : Partial)
+    (hret : 0 < cfg.retries) (hc : lookupC d reg.content = some c) (hpa : Resume1Ok c pa) :
+    ∃ net', downloadLayer cfg reg d LScript.empty pa net = (.ok c, Partial.none, net') := by
+  obtain ⟨data, done, rfl, hle, hlen, htake⟩ := hpa
+  obtain ⟨t, ht⟩ : ∃ t, cfg.retries = t + 1 := ⟨cfg.retries - 1, by omega⟩
+  have hres : resize data c.length = data := by rw [← hlen]; exact resize_self data
+  by_cases hdone : done = c.length
+  · -- every byte is there: nothing is requested, the file is renamed
+    subst hdone
+    have hdc : data = c := by
+      rw [← List.take_length (l := data), hlen, htake, List.take_length]
+    subst hdc
+    have h1 : (downloadLayer cfg reg d LScript.empty ⟨some data, [⟨0, data.length, data.length⟩]⟩ net).1 = .ok data := by
+      simp [downloadLayer, hc, LScript.empty, mrr_pass_direct, directLoop, replyFails, globParts_single,
+        runPartsIdx, hres, resize_self]
+    have h2 : (downloadLayer cfg reg d LScript.empty ⟨some data, [⟨0, data.length, data.length⟩]⟩ net).2.1 = Partial.none := by
+      simp [downloadLayer, hc, LScript.empty, mrr_pass_direct, directLoop, replyFails, globParts_single,
+        runPartsIdx, hres, resize_self]
+    exact ⟨_, Prod.ext h1 (Prod.ext h2 rfl)⟩
+  · have hlt : done < c.length := by omega
+    have hne : c.drop done ≠ [] := by
+      intro e
+      have : (c.drop done).length = c.length - done := by simp
+      rw [e] at this; simp at this; omega
+    obtain ⟨wl, wt⟩ := writeAt_spec data (c.drop done) done hne (by simp; omega)
+    have hfile : writeAt data done (c.drop done) = c := by
+      have hl2 : (writeAt data done (c.drop done)).length = c.length := wl.trans hlen
+      have hd : done + (c.drop done).length = c.length := by simp; omega
+      rw [hd, htake, List.take_append_drop] at wt
+      rw [← List.take_length (l := writeAt data done (c.drop done)), hl2, wt]
+    have hnd : ¬ (done = c.length) := hdone
+    have h1 : (downloadLayer cfg reg d LScript.empty ⟨some data, [⟨0, c.length, done⟩]⟩ net).1 = .ok c := by
+      simp [downloadLayer, hc, LScript.empty, mrr_pass_direct, directLoop, replyFails, globParts_single,
+        runPartsIdx, hres, hnd, runPart, ht, runTail, chunkStep_honest_resume c data done false hlt, hfile]
+    have h2 : (downloadLayer cfg reg d LScript.empty ⟨some data, [⟨0, c.length, done⟩]⟩ net).2.1 = Partial.none := by
+      simp [downloadLayer, hc, LScript.empty, mrr_pass_direct, directLoop, replyFails, globParts_single,
+        runPartsIdx, hres, hnd, runPart, ht, runTail, chunkStep_honest_resume c data done false hlt, hfile]
+    exact ⟨_, Prod.ext h1 (Prod.ext h2 rfl)⟩
+
+
+
+/-- honest registry, honest scripts, resume state of the single-part kind allowed: the download loop succeeds and every
+    blob it adds is the registry's -/
+theorem dlLoop_honest_resume (cfg : Cfg) (hash : Bytes → Digest) (reg : Registry)
+    (hret : 0 < cfg.retries) (hmin : 0 < cfg.minSize) (hmax : 0 < cfg.maxSize) (ls : List Layer) :
+    ∀ (s : DlState),
+      (∀ l ∈ ls, ∃ d c, l.digest = .ok d ∧ lookupC d reg.content = some c ∧ hash c = d) →
+      (∀ d c, s.st.blobs d = some c → hash c = d) →
+      (∀ l ∈ ls, ∀ d, l.digest = .ok d → s.st.blobs d = none → ∀ c, lookupC d reg.content = some c →
+        s.st.partials d = Partial.none ∨ Resume1Ok c (s.st.partials d)) →
+      s.canceled = false →
+      ∃ s', dlLoop cfg hash reg Scripts.honest ls s = (.ok (), s') ∧
+        (∀ d c, s'.st.blobs d = some c → hash c = d) := by
+  induction ls with
+  | nil => intro s _ hb _ _; exact ⟨s, rfl, hb⟩
+  | cons l ls ih =>
+    intro s hreg hb hclean hcan
+    obtain ⟨d, c, hd, hc, hh⟩ := hreg l (by simp)
+    have hreg' : ∀ l' ∈ ls, ∃ d c, l'.digest = .ok d ∧ lookupC d reg.content = some c ∧ hash c = d :=
+      fun l' hl' => hreg l' (by simp [hl'])
+    cases hbl : s.st.blobs d with
+    | some c0 =>
+      obtain ⟨s', hs', hb'⟩ := ih { s with skip := markSkip cfg d true s.skip } hreg' hb
+        (fun l' hl' d' hd' hn => hclean l' (by simp [hl']) d' hd' hn) hcan
+      refine ⟨s', ?_, hb'⟩
+      simp only [dlLoop, hd, hbl]
+      exact hs'
+    | none =>
+      have hdl : ∃ net', downloadLayer cfg reg d LScript.empty (s.st.partials d) s.net = (.ok c, Partial.none, net') := by
+        rcases hclean l (by simp) d hd hbl c hc with hpa | hr
+        · rw [hpa]; exact downloadLayer_honest cfg reg d c s.net hret hmin hmax hc
+        · exact downloadLayer_honest_resume1 cfg reg d c s.net _ hret hc hr
+      obtain ⟨net', hdl⟩ := hdl
+      let s1 : DlState :=
+        { st := { s.st with blobs := upd s.st.blobs d (some c), partials := upd s.st.partials d Partial.none }
+          net := net', skip := markSkip cfg d false s.skip, renamed := s.renamed ++ [d], canceled := false }
+      have hb1 : ∀ x cx, s1.st.blobs x = some cx → hash cx = x := by
+        intro x cx hx
+        by_cases e : x = d
+        · subst e
+          simp only [s1, upd_same] at hx
+          cases hx; exact hh
+        · simp only [s1, upd_other _ _ _ _ e] at hx
+          exact hb x cx hx
+      have hcl1 : ∀ l' ∈ ls, ∀ d', l'.digest = .ok d' → s1.st.blobs d' = none → ∀ c', lookupC d' reg.content = some c' →
+          s1.st.partials d' = Partial.none ∨ Resume1Ok c' (s1.st.partials d') := by
+        intro l' hl' d' hd' hn c' hc'
+        by_cases e : d' = d
+        · subst e; simp only [s1, upd_same] at hn; cases hn
+        · simp only [s1, upd_other _ _ _ _ e] at hn ⊢
+          exact hclean l' (by simp [hl']) d' hd' hn c' hc'
+      obtain ⟨s', hs', hb'⟩ := ih s1 hreg' hb1 hcl1 rfl
+      refine ⟨s', ?_, hb'⟩
+      have hls : lookupS d Scripts.honest.layers = LScript.empty := rfl
+      have hcond : (cfg.verifyEarly && hash c != d) = false := by simp [hh]
+      have hcf : (false || (cfg.verifyEarly && Scripts.honest.cancel == some (CancelPoint.verifying s.renamed.length))) = false := by
+        simp [Scripts.honest]
+      simp only [dlLoop, hd, hbl, hls, hdl, hcond, hcan, hcf, Bool.false_eq_true, if_false]
+      exact hs'
+
 end OllamaVerif.Pull
